@@ -211,7 +211,34 @@ def tlc_check(ctx, name, c, props=PROPS, timeout=1500):
     return r
 
 
+def probe_variant():
+    """Which algorithm does the working tree implement for recycled PIDs?  The
+    signed finding (new PIDs diffed before _pids_reused is drained) and its
+    canonical repair (drain first) are both modelled; pick the matching one so
+    that a tree that repairs the finding is checked against the repaired model
+    instead of being reported for no longer showing the defect."""
+    evs = [{"op": "k_spawn", "pid": 1, "start": 0, "inc": 1}, {"op": "new", "pid": 1, "o": 1},
+           {"op": "it_start", "k": 1}, {"op": "it_step", "k": 1, "pid": 1, "fresh": True, "o": 2},
+           {"op": "it_finish", "k": 1}, {"op": "k_exit", "pid": 1}, {"op": "k_reap", "pid": 1}, {"op": "k_tick"},
+           {"op": "k_spawn", "pid": 1, "start": 1, "inc": 2}, {"op": "is_running", "o": 1, "res": False},
+           {"op": "it_start", "k": 1}]
+    skipped = evs + [{"op": "it_finish", "k": 1}]
+    yielded = evs + [{"op": "it_step", "k": 1, "pid": 1, "fresh": True, "o": 3}, {"op": "it_finish", "k": 1}]
+    st1, v1 = forkpool.fork_call(run_events, (skipped,))
+    st2, v2 = forkpool.fork_call(run_events, (yielded,))
+    ok1 = st1 == "ok" and "mismatch" not in v1
+    ok2 = st2 == "ok" and "mismatch" not in v2
+    if ok2 and not ok1:
+        return "drain-first"
+    return "as-pinned"
+
+
 def check(ctx):
+    global FIXES, KNOWN
+    if probe_variant() == "drain-first":
+        FIXES = set(FIXES) | {"C04drain"}
+        KNOWN = set()
+        ctx.notes.append("the working tree drains _pids_reused before diffing: checked against the repaired algorithm (Fixes + C04drain); the signed finding C04-reused-skipped no longer applies")
     forkpool.start(16, init=template)
     thorough = ctx.tier == "thorough"
     ctx.cov["rule"] = ("cases = psutil-level transitions (pids/pid_exists/is_running/cache_clear and each next() of "
